@@ -302,6 +302,9 @@ def build_module(design, mname, built):
             old = ns[rs]
             new = h.Signal(width=old.width, vis=old.vis, direction=old.direction)
             setattr(m, rs, new)  # a new object under the same name; the connections made so far keep the old one
+    for rm, ra in design.get("restore", []):
+        if rm == mname:
+            m.add(ns[ra])  # the attribute, as it is, stored again under its own name
     for rd in design.get("reads", []):
         rm, ri, rp = rd[:3]
         how = rd[3] if len(rd) > 3 else "read"
